@@ -35,6 +35,7 @@ def run(model, res, tier):
     res.rule('R6', 'no listener: blank')
     res.rule('R7', 'cell tokens cover the label language')
     res.rule('R8', 'callbacks keep no shared state')
+    res.rule('R11', 'events reach exactly the subscribed listeners: the emitter contract (subscription, once, unsubscription by equality, snapshot delivery; shared with C20.R1-R5)')
     res.rule('R10', 'labels recomposed for range corners agree with the coordinates: column/row converters are exact bijective base-26 / index+1 maps (shared with C19.R3, C19.R4)')
     res.rule('R9', 'a listener that evaluates another formula cannot make the outer formula lose its remaining references: private token stream per parse (shared with C03.R1)')
     res.trusted += ['hxsa abstract interpreter and builtin models', 'CPython ast', 're._parser']
@@ -59,6 +60,8 @@ def run(model, res, tier):
     cm = c19.cell_module(model)
     H.borrow(res, 'R10', 'column converters', lambda tmp: c19._r3(model, tmp, cm))
     H.borrow(res, 'R10', 'row converters', lambda tmp: c19._r4(model, tmp, cm))
+    from . import c20
+    H.borrow(res, 'R11', 'event emitter', lambda tmp: c20.emitter_rules(model, tmp))
 
 
 # ---------------------------------------------------------------------------------------------------
@@ -136,6 +139,47 @@ def _r1_r5(ctx):
                 res.violation('R1', '%s:%s:event-count' % key, m.where(f),
                               'one invocation of the %s callback must raise exactly one %s event; the listener saw %s'
                               % (cb, ev, names or 'none'), case={'events': names}, func=key[1])
+        # ---- R1 (function calls): a function that ends in an error value - raised or returned - is still one call, one event
+        if cb == 'call_function':
+            from .c01 import error_singletons
+            em_, singles_ = error_singletons(ctx['model'])
+            ename = sorted(singles_)[0]
+
+            def raises(i2, a, kw, ename=ename, msg=singles_[ename]):
+                raise Raised(Err(ename, msg))
+            for label, fr in (('the function raises an error value', raises),
+                              ('the function returns an error value', lambda i2, a, kw, ename=ename, msg=singles_[ename]: Err(ename, msg))):
+                try:
+                    outs_e, _ = _run_with_function(ctx, cb, with_fn, None, fn_result=fr)
+                except Unmodelled as e:
+                    res.ob('R1', site, label, True, 'undecided: %s' % e)
+                    continue
+                for o in outs_e:
+                    if o.imprecise:
+                        continue
+                    names = [e[0] for e in o.events]
+                    ok = o.kind == 'return' and names == [ev]
+                    res.ob('R1', site, {'case': label, 'events': names}, ok, '%s %r' % (o.kind, o.value))
+                    if not ok:
+                        res.violation('R1', '%s:%s:event-count-error-result' % key, m.where(f),
+                                      'when %s the call must still raise exactly one %s event (listeners see every call and may supply its '
+                                      'value); the listener saw %s and the callback %s %r' % (label, ev, names or 'none', o.kind, o.value),
+                                      case={'case': label}, func=key[1])
+        # ---- R5 (variables): a name only a listener knows - what the listener hands over, falsy values included, is the value
+        if cb == 'call_variable':
+            for label, script, want in (('0', lambda: [Const(0)], 0), ('FALSE', lambda: [Const(False)], False), ('empty text', lambda: [Const('')], '')):
+                try:
+                    outs_v, _ = run_callback(ctx, cb, lambda interp: [Const('ONLY_THE_LISTENER_KNOWS')], listener_script=script)
+                except Unmodelled as e:
+                    res.ob('R5', site, label, True, 'undecided: %s' % e)
+                    continue
+                bad = [o for o in outs_v if not o.imprecise and not (o.kind == 'return' and isinstance(o.value, Const) and o.value.value == want
+                                                                      and type(o.value.value) is type(want))]
+                res.ob('R5', site, {'unset variable, listener hands': label}, not bad, H.describe(outs_v)[:2])
+                if bad:
+                    res.violation('R5', '%s:%s:setter-unset-variable' % key, m.where(f),
+                                  'a listener hands %s to the setter for a variable that was never set; the reference must evaluate to %r but '
+                                  'gives %s' % (label, want, '; '.join(H.describe(bad)[:2])), case={'setter receives': label}, func=key[1])
         # ---- R5: setter semantics
         scripts = [
             ('0', lambda: [Const(0)], ('const', 0)),
@@ -206,8 +250,8 @@ def _r1_r5(ctx):
                                       'the callVariable event must carry (name, setter); got %r' % (args[:1],), func=key[1])
 
 
-def _run_with_function(ctx, cb, mk, script):
-    """call_function needs a registered custom function F."""
+def _run_with_function(ctx, cb, mk, script, fn_result=None):
+    """call_function needs a registered custom function F (``fn_result``: what F does - default returns a number)."""
     if cb != 'call_function':
         return run_callback(ctx, cb, mk, listener_script=script)
     model, c = ctx['model'], ctx['c']
@@ -223,7 +267,7 @@ def _run_with_function(ctx, cb, mk, script):
 
     def call(interp, st):
         parser, gobj = H.host_objects(interp, model, c)
-        interp.extern['hx:fn'] = lambda i2, a, kw: Sym('int', 'FRESULT')
+        interp.extern['hx:fn'] = fn_result or (lambda i2, a, kw: Sym('int', 'FRESULT'))
         setter = interp.get_method(parser, 'set_function')
         interp.call(setter, [Const('F'), Builtin('hx:fn')])
         on = interp.get_method(parser, 'on')
